@@ -6,7 +6,7 @@ import jsontext as jt
 from wire import Obj
 
 PROP = "C02"
-MODULES = ["JV.Props.C02"]
+MODULES = ["JV.Props.C02", "JV.Props.C02X"]
 HARNESS = "jtext"
 
 
